@@ -209,8 +209,16 @@ class DiffOperator(operator.Operator, abc.ABC):
 
         # 2nd order derivatives
         if order2 == True:
-            # compute all 2nd order partial derivatives
-            order2 = {pair: {} for pair in self.PARAMETERS_ORDER2}
+            # compute all 2nd order partial derivatives of the activated variables
+            order2 = {
+                Pair(v1, v2): {}
+                for v1, v2 in get_combinations(list(order1))
+                if any(
+                    Pair(p1, p2) in self.PARAMETERS_ORDER2
+                    for p1 in order1[v1]
+                    for p2 in order1[v2]
+                )
+            }
 
         elif isinstance(order2, str):
             # single variable
